@@ -516,7 +516,9 @@ class MacroProgram(ElementProgram):
         except KeyError:
             TARGET = skip
         else:
-            TARGET = lambda node: nodes.Define(  # noqa:  E731 do not assign a lambda expression, use a def
+            # the expression is bound here: ``clause`` is assigned again
+            # below, before the wrapper is applied
+            TARGET = lambda node, clause=clause: nodes.Define(  # noqa:  E731 do not assign a lambda expression, use a def
                 [nodes.Alias(["default"], "target_language")],
                 nodes.Target(clause, node)
             )
